@@ -29,7 +29,8 @@ ASSUMPTIONS = ['texts containing an integer literal beyond the interpreter limit
 CODES = [0, 1, -1, 2001, -32700, -32600, -32601, -32602, -32603, -32000, -32050, -32099, 2 ** 53 + 1]
 MESSAGES = ['m', '', 'a b', 'é☃', 'x' * 40]
 DATAS: List[Any] = [None, 0, False, '', [], {}, [1, 'a', None], {'k': {'n': [1.5]}}, 'text', 1.5, -7]
-FAIL_KINDS = ['proto', 'exc']
+FAIL_KINDS = ['proto', 'exc', 'typed']
+RESOURCES: List[Any] = ['r1', 7, None]
 EXC_KIND_LIST = sorted(EXC_KINDS)
 
 
@@ -42,6 +43,9 @@ def _element(kind: str, k: int, arg: Dict[str, Any], call: bool, id_: Any) -> Di
         el = {'jsonrpc': '2.0', 'method': 'fail_proto', 'params': params}
     elif kind == 'exc':
         el = {'jsonrpc': '2.0', 'method': 'fail_exc', 'params': {'tok': tok, 'kind': arg['exc']}}
+    elif kind == 'typed':
+        # an application error class with a constructor of its own (raised as ResourceNotFound(resource))
+        el = {'jsonrpc': '2.0', 'method': 'fail_typed', 'params': [tok, arg['resource']]}
     else:
         el = {'jsonrpc': '2.0', 'method': 'echo', 'params': [tok, k]}
     if call:
@@ -52,10 +56,13 @@ def _element(kind: str, k: int, arg: Dict[str, Any], call: bool, id_: Any) -> Di
 def fam_callee_faults(w: World) -> None:
     """Draw order is fixed so that SYSTEMATIC prefixes enumerate (kind, code/exc, position, call?, length)."""
     ch = w.ch
-    kind = FAIL_KINDS[ch.draw(2, 'sys.kind')]
+    kind = FAIL_KINDS[ch.draw(3, 'sys.kind')]
     arg: Dict[str, Any] = {}
     if kind == 'proto':
         arg['code'] = CODES[ch.draw(len(CODES), 'sys.code')]
+    elif kind == 'typed':
+        arg['resource'] = RESOURCES[ch.draw(len(RESOURCES), 'sys.resource')]
+        arg['code'] = 2003
     else:
         arg['exc'] = EXC_KIND_LIST[ch.draw(len(EXC_KIND_LIST), 'sys.exc')]
     length = 1 + ch.draw(4, 'sys.length')           # 1 = single request (not a batch)
@@ -73,14 +80,18 @@ def fam_callee_faults(w: World) -> None:
             els.append(_element(kind, k, arg, call, ids[k]))
         else:
             other_call = not ch.flag(1, 4, 'other.notification')
-            other_kind = ['ok', 'proto', 'exc'][ch.weighted([4, 1, 1], 'other.kind')]
+            other_kind = ['ok', 'proto', 'exc', 'typed'][ch.weighted([4, 1, 1, 1], 'other.kind')]
             other_arg = {'code': ch.choice(CODES, 'other.code'), 'message': 'other', 'data_mode': 'absent', 'data': None,
-                         'exc': ch.choice(EXC_KIND_LIST, 'other.exc')}
+                         'exc': ch.choice(EXC_KIND_LIST, 'other.exc'), 'resource': 'other'}
             els.append(_element(other_kind, k, other_arg, other_call, ids[k]))
     doc: Any = els if as_batch else els[0]
     cfg = S.draw_config(ch, length)
     if cfg['max_batch_size'] not in (None, 0) and cfg['max_batch_size'] < length:
         cfg['max_batch_size'] = None
+    if ch.flag(1, 2, 'identity_handlers'):
+        # error handlers that return the error they were given: the reply must be exactly the one without handlers
+        code = arg.get('code') if kind in ('proto', 'typed') else R.SERVER_ERROR
+        cfg['handlers'] = {'none': [('h1', 'identity')], str(code): [('h2', 'identity')]}
     S.plan_pauses(w, cfg, length)
     text = json.dumps(doc)
     w.scenario = {'cfg': cfg, 'text': text, 'fault': dict(arg, kind=kind, position=pos, call=call)}
@@ -128,8 +139,8 @@ def fam_wire_faults(w: World) -> None:
 def systematic_callee(tier: str) -> Iterable[List[int]]:
     """(kind x code|exc x length x position x call/notification): every single-fault placement."""
     max_len = 2 if tier == 'quick' else 4
-    for kind in range(2):
-        n_arg = len(CODES) if kind == 0 else len(EXC_KIND_LIST)
+    for kind in range(3):
+        n_arg = len(CODES) if kind == 0 else len(EXC_KIND_LIST) if kind == 1 else len(RESOURCES)
         for a in range(n_arg):
             for length in range(max_len):
                 for pos in range(length + 1):
